@@ -1,14 +1,22 @@
 ------------------------------ MODULE Blowup ------------------------------
 \* Containment of numerical blow-ups in mj_step (src/engine/engine_forward.c: mj_checkPos, mj_checkVel,
-\* mj_fwdActuation's control check, mj_checkAcc; engine_util_misc.c: mju_isBad; engine_core_util.c: mj_warning).
+\* mj_fwdActuation's control check, mj_checkAcc; engine_util_misc.c: mju_isBad; engine_core_util.c: mj_warning),
+\* including the sleep filter of the checks (engine_sleep.c: dof_awake_ind, mj_wake).
 \*
 \* The user writes values of a *class* into one of six arrays of mjData and then calls mj_step, which is modelled
 \* phase by phase:   checkPos ; checkVel ; forward ; checkAcc ; integrate.
-\* Arrays hold an abstract content:
+\* The model has one or two kinematic trees (targets of an injection):
+\*      "awake"    a tree that never sleeps
+\*      "sleeper"  (sleep layouts only) a tree that is asleep in the initial state; in dof order it comes
+\*                 before ("first") or after ("last") the awake tree.  Layout "none" = sleeping disabled.
+\* mj_checkPos looks at every position; mj_checkVel and mj_checkAcc look only at the degrees of freedom that are
+\* awake when they run; forward kinematics wakes a sleeping tree whose position, velocity or applied force was
+\* touched; a reset puts the sleeper back to sleep.
+\* Arrays hold an abstract content, per tree:
 \*      "def"  untouched since the last reset (state arrays: on the reference trajectory; inputs: zero)
 \*      "fin"  finite, within the magnitude limit, otherwise arbitrary
 \*      "bad"  contains NaN, +-Inf or a number beyond mjMAXVAL
-\*      "unk"  unknown (a bad value was allowed to propagate because autoreset is disabled)
+\*      "unk"  unknown (a bad value was allowed to propagate)
 \* Warning counters are described *relative to the start of the step*:
 \*      "same"  unchanged            "inc"  strictly larger
 \*      "zero"  the data was reset during the step and the counter not raised afterwards (= 0)
@@ -21,15 +29,20 @@ EXTENDS Integers, Sequences, FiniteSets, TLC
 CONSTANTS MaxSteps, MaxInj,      \* steps per behaviour, injections before each step
           Classes,               \* value classes that may be injected
           AutoChoices,           \* values of the autoreset flag that may be chosen before a step
-          Bug                    \* "none"; "noreset" / "skipvel" plant defects (negative controls)
+          Layouts,               \* subset of {"none", "first", "last"}
+          Bug                    \* "none"; other values plant defects (negative controls)
 
 StateSites == {"qpos", "qvel", "act"}
 InputSites == {"ctrl", "qfrc", "xfrc"}
 Sites == StateSites \cup InputSites
+SleepSites == {"qpos", "qvel", "qfrc", "xfrc"}     \* the models with a sleeping tree have no actuators
+Targets == {"awake", "sleeper"}
 Warns == {"qpos", "qvel", "qacc", "ctrl"}          \* mjWARN_BADQPOS, BADQVEL, BADQACC, BADCTRL
 BadClasses == {"huge", "nan", "inf", "ninf"}
 
-VARIABLES val,      \* [Sites -> content]
+VARIABLES layout,   \* "none" | "first" | "last"
+          asleep,   \* is the sleeper asleep: "yes" | "no" | "unk"
+          val,      \* [Targets -> [Sites -> content]]
           auto,     \* autoreset enabled
           ref,      \* see above
           rel,      \* [Warns -> relation], valid inside a step and at its end
@@ -38,142 +51,190 @@ VARIABLES val,      \* [Sites -> content]
           qacc,     \* content of the acceleration computed by forward
           phase, nsteps, ninj,
           ev, hist
-vars == <<val, auto, ref, rel, det, hadbad, qacc, phase, nsteps, ninj, ev, hist>>
+vars == <<layout, asleep, val, auto, ref, rel, det, hadbad, qacc, phase, nsteps, ninj, ev, hist>>
 
 Same == [w \in Warns |-> "same"]
 Bump(r) == CASE r = "same" -> "inc" [] r = "inc" -> "inc" [] r = "zero" -> "pos" [] r = "pos" -> "pos" [] OTHER -> "any"
-AllDef == [s \in Sites |-> "def"]
+AllDef == [t \in Targets |-> [s \in Sites |-> "def"]]
+InitSleep == IF layout = "none" THEN "no" ELSE "yes"
 Log(e) == /\ ev' = e /\ hist' = Append(hist, e)
 
-Init == /\ val = AllDef /\ auto = TRUE /\ ref = 0 /\ rel = Same /\ det = {} /\ hadbad = FALSE /\ qacc = "fin"
+Init == /\ layout \in Layouts
+        /\ asleep = InitSleep
+        /\ val = AllDef /\ auto = TRUE /\ ref = 0 /\ rel = Same /\ det = {} /\ hadbad = FALSE /\ qacc = "fin"
         /\ phase = "idle" /\ nsteps = 0 /\ ninj = 0
-        /\ ev = [op |-> "init"] /\ hist = <<>>
+        /\ ev = [op |-> "init", layout |-> layout] /\ hist = <<ev>>
 
 \* ---- the user ----------------------------------------------------------------------------------------------
-Inject(s, c) ==
+Inject(t, s, c) ==
   /\ phase = "idle" /\ nsteps < MaxSteps /\ ninj < MaxInj /\ ninj' = ninj + 1
-  /\ val[s] \in {"def", "fin"}                       \* one class per array
-  /\ val' = [val EXCEPT ![s] = IF c \in BadClasses THEN "bad" ELSE "fin"]
+  /\ IF layout = "none" THEN t = "awake" ELSE s \in SleepSites
+  /\ val[t][s] \in {"def", "fin"}                     \* one class per array and tree
+  /\ val' = [val EXCEPT ![t][s] = IF c \in BadClasses THEN "bad" ELSE "fin"]
   /\ ref' = IF s \in StateSites THEN -1 ELSE ref
-  /\ Log([op |-> "inject", site |-> s, cls |-> c])
-  /\ UNCHANGED <<auto, rel, det, hadbad, qacc, phase, nsteps>>
+  /\ Log([op |-> "inject", tgt |-> t, site |-> s, cls |-> c])
+  /\ UNCHANGED <<layout, asleep, auto, rel, det, hadbad, qacc, phase, nsteps>>
 
 SetAuto(b) ==
   /\ phase = "idle" /\ nsteps < MaxSteps /\ ninj = 0 /\ b # auto /\ b \in AutoChoices
   /\ ev.op # "setauto"                                \* at most once before a step
   /\ auto' = b /\ Log([op |-> "setauto", on |-> b])
-  /\ UNCHANGED <<val, ref, rel, det, hadbad, qacc, phase, nsteps, ninj>>
+  /\ UNCHANGED <<layout, asleep, val, ref, rel, det, hadbad, qacc, phase, nsteps, ninj>>
 
 \* ---- mj_step, phase by phase ------------------------------------------------------------------------------
 Begin ==
   /\ phase = "idle" /\ nsteps < MaxSteps
   /\ phase' = "pos" /\ rel' = Same /\ det' = {} /\ ninj' = 0
-  /\ hadbad' = (\E s \in Sites : val[s] \in {"bad", "unk"})
-  /\ Log([op |-> "begin", auto |-> auto])
-  /\ UNCHANGED <<val, auto, ref, qacc, nsteps>>
+  /\ hadbad' = (\E t \in Targets, s \in Sites : val[t][s] \in {"bad", "unk"})
+  /\ Log([op |-> "begin", auto |-> auto, asleep |-> asleep])
+  /\ UNCHANGED <<layout, asleep, val, auto, ref, qacc, nsteps>>
 
-\* a check fired for warning w: with autoreset the data is reset (every counter cleared) and the counter raised
+\* a check fired for warning w: with autoreset the data is reset (every counter cleared, the sleeper asleep again)
+\* and the counter raised
 Fire(w) ==
   /\ det' = det \cup {w}
   /\ IF auto /\ Bug # "noreset"
-             THEN /\ val' = AllDef /\ ref' = 0
+             THEN /\ val' = AllDef /\ ref' = 0 /\ asleep' = InitSleep
                   /\ rel' = [x \in Warns |-> IF x = w THEN "pos" ELSE "zero"]
-             ELSE /\ rel' = [rel EXCEPT ![w] = Bump(@)] /\ UNCHANGED <<val, ref>>
-\* the checked array is unknown: the check may or may not fire
+             ELSE /\ rel' = [rel EXCEPT ![w] = Bump(@)] /\ UNCHANGED <<val, ref, asleep>>
+\* the checked array is unknown, or its tree may be hidden by the sleep filter: the check may or may not fire
 Maybe(w) ==
   /\ UNCHANGED det
   /\ IF auto THEN /\ rel' = [x \in Warns |-> "any"] /\ ref' = -1
-                  /\ val' = [s \in Sites |-> IF val[s] = "def" THEN "def" ELSE "unk"]
-             ELSE /\ rel' = [rel EXCEPT ![w] = "any"] /\ UNCHANGED <<val, ref>>
-Check(site, w) ==
-  IF val[site] = "bad" THEN Fire(w)
-  ELSE IF val[site] = "unk" THEN Maybe(w)
-  ELSE UNCHANGED <<val, ref, rel, det>>
+                  /\ val' = [t \in Targets |-> [s \in Sites |-> IF val[t][s] = "def" THEN "def" ELSE "unk"]]
+                  /\ asleep' = IF layout = "none" THEN "no" ELSE "unk"
+             ELSE /\ rel' = [rel EXCEPT ![w] = "any"] /\ UNCHANGED <<val, ref, asleep>>
+Untouched == UNCHANGED <<val, ref, rel, det, asleep>>
 
+\* mj_checkPos is not filtered: a bad position of a sleeping tree is seen too
 CheckPos ==
-  /\ phase = "pos" /\ phase' = "vel" /\ Check("qpos", "qpos")
-  /\ Log([op |-> "checkPos", rel |-> rel'])
-  /\ UNCHANGED <<auto, hadbad, qacc, nsteps, ninj>>
+  /\ phase = "pos" /\ phase' = "vel"
+  /\ IF \E t \in Targets : val[t]["qpos"] = "bad" THEN Fire("qpos")
+     ELSE IF \E t \in Targets : val[t]["qpos"] = "unk" THEN Maybe("qpos")
+     ELSE Untouched
+  /\ Log([op |-> "checkPos", rel |-> rel', fired |-> "qpos" \in det'])
+  /\ UNCHANGED <<layout, auto, hadbad, qacc, nsteps, ninj>>
+
+\* the degrees of freedom mj_checkVel / mj_checkAcc look at: those of trees that are awake
+\* is the index indirection dof_awake_ind[j] # j in force: a tree that is asleep precedes the awake tree
+Indirect == layout = "first" /\ asleep = "yes"
+Hidden == Bug = "hidden" /\ Indirect          \* planted: under the indirection the checks look at the wrong dofs
+Seen(t) == ~Hidden /\ (t = "awake" \/ asleep = "no")
 CheckVel ==
   /\ phase = "vel" /\ phase' = "fwd"
-  /\ IF Bug = "skipvel" THEN UNCHANGED <<val, ref, rel, det>> ELSE Check("qvel", "qvel")
-  /\ Log([op |-> "checkVel", rel |-> rel'])
-  /\ UNCHANGED <<auto, hadbad, qacc, nsteps, ninj>>
+  /\ IF Bug = "skipvel" THEN Untouched
+     ELSE IF \E t \in Targets : Seen(t) /\ val[t]["qvel"] = "bad" THEN Fire("qvel")
+     ELSE IF \E t \in Targets : val[t]["qvel"] = "unk" \/ (val[t]["qvel"] = "bad" /\ ~Seen(t)) THEN Maybe("qvel")
+     ELSE Untouched
+  /\ Log([op |-> "checkVel", rel |-> rel', fired |-> "qvel" \in det', indirect |-> Indirect])
+  /\ UNCHANGED <<layout, auto, hadbad, qacc, nsteps, ninj>>
 
-\* forward dynamics: a bad control raises its warning and all controls are treated as zero; bad applied forces or
-\* activations make the acceleration bad; bad or unknown positions / velocities make it unknown
+\* forward dynamics: kinematics wakes a sleeping tree that was touched; a bad control raises its warning and all
+\* controls are treated as zero; bad applied forces or activations make the acceleration bad; bad or unknown
+\* positions / velocities make it unknown
+Disturbed == \E s \in SleepSites : val["sleeper"][s] # "def"
 Forward ==
   /\ phase = "fwd" /\ phase' = "acc"
-  /\ rel' = IF val["ctrl"] = "bad" THEN [rel EXCEPT !["ctrl"] = Bump(@)] ELSE rel
-  /\ det' = IF val["ctrl"] = "bad" THEN det \cup {"ctrl"} ELSE det
-  /\ qacc' = IF \E s \in {"qpos", "qvel"} : val[s] \in {"bad", "unk"} THEN "unk"
-             ELSE IF val["act"] = "unk" THEN "unk"
-             ELSE IF \E s \in {"qfrc", "xfrc", "act"} : val[s] = "bad" THEN "bad"
+  /\ asleep' = IF asleep = "yes" /\ Disturbed /\ Bug # "nowake" THEN "no" ELSE asleep
+  /\ rel' = IF val["awake"]["ctrl"] = "bad" THEN [rel EXCEPT !["ctrl"] = Bump(@)] ELSE rel
+  /\ det' = IF val["awake"]["ctrl"] = "bad" THEN det \cup {"ctrl"} ELSE det
+  /\ qacc' = IF \E t \in Targets, s \in {"qpos", "qvel"} : val[t][s] \in {"bad", "unk"} THEN "unk"
+             ELSE IF \E t \in Targets, s \in {"qfrc", "xfrc", "act"} : val[t][s] = "unk" THEN "unk"
+             ELSE IF \E t \in Targets, s \in {"qfrc", "xfrc", "act"} : val[t][s] = "bad" THEN "bad"
              ELSE "fin"
-  /\ Log([op |-> "forward", rel |-> rel'])
-  /\ UNCHANGED <<val, auto, ref, hadbad, nsteps, ninj>>
+  /\ Log([op |-> "forward", rel |-> rel', asleep |-> asleep'])
+  /\ UNCHANGED <<layout, val, auto, ref, hadbad, nsteps, ninj>>
 
-\* after a reset mj_checkAcc recomputes the forward dynamics of the reset state
+\* a bad acceleration belongs to a tree that forward has woken (or that never sleeps), so the filter of
+\* mj_checkAcc never hides it; after a reset mj_checkAcc recomputes the forward dynamics of the reset state
+AccSeen == ~Hidden /\ (asleep # "yes" \/ \E s \in {"qfrc", "xfrc", "act"} : val["awake"][s] = "bad")
 CheckAcc ==
   /\ phase = "acc" /\ phase' = "int"
-  /\ IF qacc = "bad" THEN Fire("qacc") /\ qacc' = (IF auto THEN "fin" ELSE "bad")
-     ELSE IF qacc = "unk" THEN Maybe("qacc") /\ qacc' = "unk"
-     ELSE UNCHANGED <<val, ref, rel, det, qacc>>
-  /\ Log([op |-> "checkAcc", rel |-> rel'])
-  /\ UNCHANGED <<auto, hadbad, nsteps, ninj>>
+  /\ IF qacc = "bad" /\ AccSeen THEN Fire("qacc") /\ qacc' = (IF auto THEN "fin" ELSE "bad")
+     ELSE IF qacc \in {"unk", "bad"} THEN Maybe("qacc") /\ qacc' = "unk"
+     ELSE Untouched /\ UNCHANGED qacc
+  /\ Log([op |-> "checkAcc", rel |-> rel', fired |-> "qacc" \in det', indirect |-> Indirect])
+  /\ UNCHANGED <<layout, auto, hadbad, nsteps, ninj>>
 
 \* inputs that leave the reference trajectory alone: zero, or a bad control (treated as zero)
-QuietInputs == val["ctrl"] \in {"def", "bad"} /\ val["qfrc"] = "def" /\ val["xfrc"] = "def"
-FiniteState == \A s \in StateSites : val[s] \in {"def", "fin"}
+QuietInputs == /\ val["awake"]["ctrl"] \in {"def", "bad"}
+               /\ \A t \in Targets : val[t]["qfrc"] = "def" /\ val[t]["xfrc"] = "def"
+FiniteState == \A t \in Targets, s \in StateSites : val[t][s] \in {"def", "fin"}
 \* autoreset on and no bad value survived the checks: whatever was unknown either fired a check (reset) or was fine
-Caught == auto /\ qacc # "bad" /\ \A s \in StateSites : val[s] # "bad"
+Caught == auto /\ qacc # "bad" /\ \A t \in Targets, s \in StateSites : val[t][s] # "bad"
+\* the state arrays the integrator writes: those of the awake tree, and of the sleeper unless it is still asleep
+Moves(t, s) == s \in StateSites /\ (t = "awake" \/ (layout # "none" /\ s \in SleepSites /\ asleep # "yes"))
 Integrate ==
   /\ phase = "int" /\ phase' = "idle" /\ nsteps' = nsteps + 1
   /\ IF qacc = "fin" /\ FiniteState
-     THEN IF ref >= 0 /\ QuietInputs /\ \A s \in StateSites : val[s] = "def"
+     THEN IF ref >= 0 /\ QuietInputs /\ \A t \in Targets, s \in StateSites : val[t][s] = "def"
           THEN /\ ref' = ref + 1 /\ UNCHANGED val
-          ELSE /\ ref' = -1 /\ val' = [s \in Sites |-> IF s \in StateSites THEN "fin" ELSE val[s]]
-     ELSE \* something bad or unknown was integrated: with autoreset every bad value was caught by a check, so the
-          \* state is finite whichever way the unknown checks went; without it there is no claim
+          ELSE /\ ref' = -1
+               /\ val' = [t \in Targets |-> [s \in Sites |-> IF Moves(t, s) THEN "fin" ELSE val[t][s]]]
+     ELSE \* something bad or unknown was integrated.  With autoreset every bad value that a check could see was
+          \* caught, so the state is finite whichever way the unknown checks went -- but a value beyond the limit
+          \* that was hidden from mj_checkVel by the sleep filter may still be there (it is seen one step later),
+          \* so the content stays unknown.  Without autoreset there is no claim.
           /\ ref' = -1
-          /\ val' = [s \in Sites |-> IF s \in StateSites THEN (IF Caught THEN "fin" ELSE "unk") ELSE val[s]]
-  /\ Log([op |-> "step", auto |-> auto, rel |-> rel, ref |-> ref',
-          finite |-> \A s \in StateSites : val'[s] \in {"def", "fin"}])
-  /\ UNCHANGED <<auto, rel, det, hadbad, qacc, ninj>>
+          /\ val' = [t \in Targets |-> [s \in Sites |-> IF Moves(t, s) THEN "unk" ELSE val[t][s]]]
+  /\ Log([op |-> "step", auto |-> auto, rel |-> rel, ref |-> ref', asleep |-> asleep,
+          finite |-> (qacc = "fin" /\ FiniteState) \/ Caught])
+  /\ UNCHANGED <<layout, asleep, auto, rel, det, hadbad, qacc, ninj>>
 
-Next == \/ \E s \in Sites, c \in Classes : Inject(s, c)
+Next == \/ \E t \in Targets, s \in Sites, c \in Classes : Inject(t, s, c)
         \/ \E b \in BOOLEAN : SetAuto(b)
         \/ Begin \/ CheckPos \/ CheckVel \/ Forward \/ CheckAcc \/ Integrate
 Spec == Init /\ [][Next]_vars
 
 \* ---- the property -------------------------------------------------------------------------------------------
 Contents == {"def", "fin", "bad", "unk"}
-TypeOK == /\ val \in [Sites -> Contents] /\ rel \in [Warns -> {"same", "inc", "zero", "pos", "any"}]
-          /\ ref \in -1..MaxSteps /\ qacc \in {"fin", "bad", "unk"}
+TypeOK == /\ val \in [Targets -> [Sites -> Contents]] /\ rel \in [Warns -> {"same", "inc", "zero", "pos", "any"}]
+          /\ ref \in -1..MaxSteps /\ qacc \in {"fin", "bad", "unk"} /\ asleep \in {"yes", "no", "unk"}
+          /\ (layout = "none" => asleep = "no" /\ \A s \in Sites : val["sleeper"][s] = "def")
 StepDone == ev.op = "step"
-\* with autoreset every state component is finite after mj_step, whatever was injected
+\* with autoreset every state component is finite after mj_step, whatever was injected where
 AutoresetFinite == (StepDone /\ ev.auto) => ev.finite
 \* a position / velocity / acceleration check that fired raised its counter
 DetectedCounted == StepDone => \A w \in det \cap {"qpos", "qvel", "qacc"} : rel[w] \in {"inc", "pos"}
 \* so did the control check, unless the acceleration check reset the data later in the same step (found by TLC:
 \* bad ctrl together with bad act / applied force and autoreset leaves the BADCTRL counter at zero)
-CtrlCounted == (StepDone /\ "ctrl" \in det /\ ~("qacc" \in det /\ ev.auto)) => rel["ctrl"] \in {"inc", "pos"}
-\* bad positions / velocities at the start of a step are always detected when autoreset is on
-BadStateDetected == [][(ev'.op = "checkPos" /\ val["qpos"] = "bad") => "qpos" \in det']_vars
-BadVelDetected == [][(ev'.op = "checkVel" /\ val["qvel"] = "bad") => "qvel" \in det']_vars
+\* (or, after an unknown value met a check under autoreset, nothing is claimed)
+CtrlCounted == (StepDone /\ "ctrl" \in det /\ ~("qacc" \in det /\ ev.auto)) => rel["ctrl"] \in {"inc", "pos", "any"}
+\* bad positions at the start of a step are always detected, in sleeping trees too
+BadStateDetected == [][(ev'.op = "checkPos" /\ \E t \in Targets : val[t]["qpos"] = "bad") => "qpos" \in det']_vars
+\* bad velocities of a tree that is awake are always detected, whatever the position of sleeping trees
+BadVelDetected == [][(ev'.op = "checkVel" /\ \E t \in Targets : val[t]["qvel"] = "bad" /\ (t = "awake" \/ asleep = "no"))
+                       => "qvel" \in det']_vars
+\* a bad force or activation applied to the tree that never sleeps is always detected by mj_checkAcc, whether or
+\* not a sleeping tree precedes it in dof order (the index indirection of the sleep filter)
+AwakeAccDetected == [][(ev'.op = "checkAcc" /\ qacc = "bad" /\ \E s \in {"qfrc", "xfrc", "act"} : val["awake"][s] = "bad")
+                         => "qacc" \in det']_vars
+\* so is one applied to a sleeping tree, because forward wakes that tree first
+SleeperAccDetected == [][(ev'.op = "checkAcc" /\ qacc = "bad") => "qacc" \in det']_vars
+\* touching a sleeping tree wakes it before the acceleration check
+TouchWakes == [][(ev'.op = "forward" /\ asleep = "yes" /\ Disturbed) => asleep' = "no"]_vars
 \* no bad or unknown value anywhere at the start of the step: no counter moves
 NoSpuriousWarning == (StepDone /\ ~hadbad) => rel = Same
 \* with autoreset, a detected bad position / velocity / acceleration leaves the data on the reference
-\* trajectory, one step after the initial state
+\* trajectory, one step after the initial state, with the sleeper asleep again
 Contained == (StepDone /\ ev.auto /\ det \cap {"qpos", "qvel", "qacc"} # {} /\ \A w \in Warns : rel[w] # "any")
-                => (ev.ref = 1 /\ \A s \in Sites : val[s] = "def")
+                => (ev.ref = 1 /\ val = AllDef /\ asleep = InitSleep)
 \* a reset clears the inputs too: nothing bad is left after a step with autoreset in which a check fired
-NothingLeft == (StepDone /\ ev.auto /\ det \cap {"qpos", "qvel", "qacc"} # {}) => \A s \in Sites : val[s] # "bad"
+NothingLeft == (StepDone /\ ev.auto /\ det \cap {"qpos", "qvel", "qacc"} # {})
+                  => \A t \in Targets, s \in Sites : val[t][s] # "bad"
 
 \* ---- constants for the configurations -------------------------------------------------------------------------
-NoHist == <<val, auto, ref, rel, det, hadbad, qacc, phase, nsteps, ninj, ev>>
+NoHist == <<layout, asleep, val, auto, ref, rel, det, hadbad, qacc, phase, nsteps, ninj, ev>>
 AllClasses == {"ok", "huge", "nan", "inf", "ninf"}
 BadOnly == BadClasses
+\* the specification only distinguishes in-range from bad: two classes decide the properties, the others matter
+\* for the values the replay writes
+TwoClasses == {"ok", "nan"}
+ThreeClasses == {"ok", "nan", "ninf"}
+FourClasses == {"ok", "huge", "nan", "ninf"}
 BothFlags == BOOLEAN
 OnlyOn == {TRUE}
+AllLayouts == {"none", "first", "last"}
+NoSleep == {"none"}
+SleepLayouts == {"first", "last"}
 =============================================================================
